@@ -95,7 +95,58 @@ func terminates(sc *Scenario) bool {
 }
 
 // genC01: random compositions, histories of executions on shared stateful instances.
+// genC01GateWait is the directed shape "a waiting gate below a canceller":
+// a timeout over a retry over a gate that refuses early attempts, a layer that
+// copies the execution, and a gate whose permit is taken so that a later
+// attempt waits there until the outer timeout cancels it.
+func genC01GateWait(r *Rnd, t Tier) *Case {
+	unit := ms
+	sc := &Scenario{Family: "c01"}
+	outer := PolicySpec{Kind: KTimeout, Limit: time.Duration(r.Range(4, 30)) * unit}
+	rp := PolicySpec{Kind: KRetry, MaxRetries: r.Range(1, 3), DelayKind: DelayFixed, Delay: time.Duration(r.Range(1, 6)) * unit}
+	first := PolicySpec{Kind: KLimiter, Smooth: true, Interval: time.Duration(r.Range(3, 12)) * unit}
+	var layer PolicySpec
+	if r.Bool() {
+		layer = PolicySpec{Kind: KTimeout, Limit: time.Duration(r.Range(200, 400)) * unit}
+	} else {
+		layer = PolicySpec{Kind: KHedge, MaxHedges: 1, Delay: time.Duration(r.Range(200, 400)) * unit}
+	}
+	var waiting PolicySpec
+	if r.P(0.7) {
+		waiting = PolicySpec{Kind: KLimiter, MaxExec: 1, Period: time.Duration(r.Range(30, 80)) * unit, MaxWait: 1000 * unit}
+		if r.Bool() {
+			waiting = PolicySpec{Kind: KLimiter, Smooth: true, Interval: time.Duration(r.Range(30, 80)) * unit, MaxWait: 1000 * unit}
+		}
+	} else {
+		waiting = PolicySpec{Kind: KBulkhead, MaxConc: 1, MaxWait: 1000 * unit}
+	}
+	sc.Policies = []PolicySpec{outer, rp, first, layer, waiting}
+	stack := []int{0, 1, 2, 3, 4}
+	if r.P(0.3) {
+		stack = []int{0, 1, 3, 4} // the previous attempt fails in the function instead
+	}
+	sc.Stacks = [][]int{stack}
+	var ops []Op
+	if waiting.Kind == KBulkhead {
+		ops = append(ops, Op{Kind: "bh.try", Pol: 4})
+	}
+	ne := r.Range(2, 3)
+	for i := 0; i < ne; i++ {
+		sc.Scripts = append(sc.Scripts, genScript(r, unit, r.Range(1, 3), pick(r, 0.0, 0.5)))
+		ops = append(ops, Op{Kind: "exec", Script: i, Entry: r.Intn(8), Ctx: pick(r, CtxNone, CtxBackground)})
+		if r.P(0.3) {
+			ops = append(ops, Op{Kind: "sleep", Dur: time.Duration(r.Range(1, 10)) * unit})
+		}
+	}
+	sc.Clients = []Client{{Ops: ops}}
+	terminating(sc)
+	return &Case{Sc: sc}
+}
+
 func genC01(r *Rnd, t Tier) *Case {
+	if r.P(0.04) {
+		return genC01GateWait(r, t)
+	}
 	unit := ms
 	sc := &Scenario{Family: "c01"}
 	maxP, maxE := 4, 3
